@@ -30,12 +30,14 @@ type c06Obs struct {
 	Initial map[string]string
 	Final   map[string]string
 	WalCnt  map[string]int // "key=val" -> number of log entries
+	WalSeq  map[string][]uint64 // "key=val" -> stamps of its log entries
+	Pre     []kvOp              // the sequential prefix (before every client operation)
 	Err     string
 }
 
 func c06Run(sc c06Scenario) any {
 	dir := filepath.Join(fw.ProcDir("c06"), "db")
-	obs := &c06Obs{Initial: map[string]string{}, Final: map[string]string{}, WalCnt: map[string]int{}}
+	obs := &c06Obs{Initial: map[string]string{}, Final: map[string]string{}, WalCnt: map[string]int{}, WalSeq: map[string][]uint64{}}
 	r, err := newEngRun(dir, engCfgs[sc.Cfg])
 	if err != nil {
 		obs.Err = "open: " + err.Error()
@@ -91,6 +93,7 @@ func c06Run(sc c06Scenario) any {
 			}
 		}
 	}
+	obs.Pre = rec.Ops
 	rec.Ops = nil
 	var ts []*vsched.Thread
 	for ci, c := range sc.Clients {
@@ -116,11 +119,12 @@ func c06Run(sc c06Scenario) any {
 	wdir := sm.VerifWALDir()
 	r.Close()
 	wal.ReplayWALDir(wdir, func(e *wal.Entry) error {
+		k := string(e.Key) + "=<del>"
 		if e.Type == wal.OpTypePut {
-			obs.WalCnt[string(e.Key)+"="+string(e.Value)]++
-		} else {
-			obs.WalCnt[string(e.Key)+"=<del>"]++
+			k = string(e.Key) + "=" + string(e.Value)
 		}
+		obs.WalCnt[k]++
+		obs.WalSeq[k] = append(obs.WalSeq[k], e.SequenceNumber)
 		return nil
 	})
 	return obs
@@ -178,8 +182,65 @@ func c06Defs() []c06Scenario {
 		{Name: "tiny-del-vs-get", Cfg: "tiny", Pre: []string{"put:a:0", "bg"}, Clients: []c06Client{{"del:a"}, {"get:a"}}},
 		{Name: "flush-vs-put-get", Cfg: "big", Pre: []string{"put:a:0", "switch"}, Clients: []c06Client{{"flush"}, {"put:a:1"}, {"get:a"}}},
 		{Name: "flush-active-vs-put", Cfg: "big", Pre: []string{"put:a:0"}, Clients: []c06Client{{"flush"}, {"put:a:1", "get:a"}}},
+		// two writes can fall into any window of a rotation, a third comes after it
+		{Name: "rotate-vs-puts", Cfg: "big", Pre: []string{"put:a:0"}, Clients: []c06Client{{"flush"}, {"put:a:1", "put:a:2"}, {"put:a:3", "get:a"}}},
 		{Name: "compact-vs-put-get", Cfg: "tiny2", Pre: []string{"put:a:0", "bg", "put:b:0", "bg"}, Clients: []c06Client{{"compact"}, {"put:a:1", "get:b"}}},
 	}
+}
+
+// c08ConcCheck is the C08 oracle on the same executions: the stamp of every acknowledged write is strictly greater
+// than the stamp of every write acknowledged before it started.
+func c08ConcCheck(sc c06Scenario) func(s *vsched.Sched, o any) (string, string) {
+	return func(s *vsched.Sched, o any) (string, string) {
+		ob := o.(*c06Obs)
+		type w struct {
+			op  kvOp
+			seq uint64
+		}
+		var ws []w
+		var outs []string
+		for _, h := range append(append([]kvOp{}, ob.Pre...), ob.Hist...) {
+			if (h.Kind != "put" && h.Kind != "del") || h.Err != "" {
+				continue
+			}
+			k := h.Key + "=<del>"
+			if h.Kind == "put" {
+				k = h.Key + "=" + h.Val
+			}
+			sq := ob.WalSeq[k]
+			if len(sq) != 1 {
+				continue // exactly-once is C06's clause
+			}
+			ws = append(ws, w{h, sq[0]})
+			outs = append(outs, fmt.Sprintf("%s@%d", k, sq[0]))
+		}
+		key := strings.Join(outs, " ")
+		if ob.Err != "" {
+			return key, ""
+		}
+		for _, x := range ws {
+			for _, y := range ws {
+				if x.op.Ret < y.op.Call && x.seq >= y.seq {
+					return key, fmt.Sprintf("stamp-not-above-earlier-acknowledged-write\n%s is stamped %d, but %s, acknowledged before it started, is stamped %d", y.op.String(), y.seq, x.op.String(), x.seq)
+				}
+			}
+		}
+		return key, ""
+	}
+}
+
+func c08ConcScenarios() []*explore.Scenario {
+	var out []*explore.Scenario
+	for _, d := range c06Defs() {
+		d := d
+		switch d.Name {
+		case "put-vs-put", "tiny-put-vs-put", "flush-active-vs-put", "rotate-vs-puts":
+			out = append(out, &explore.Scenario{Name: d.Name, MaxSteps: 3_000_000, EnvBudgets: d.Env,
+				Body:  func() any { return c06Run(d) },
+				Check: c08ConcCheck(d)})
+		}
+	}
+	return out
 }
 
 func c06Scenarios() []*explore.Scenario {
@@ -197,7 +258,7 @@ func init() {
 	fw.Register(&fw.Check{
 		ID:    "C06",
 		Level: "model_checking",
-		Rule: "stateless exploration of the real engine under the controlled scheduler: 10 scenarios of 2-3 client threads x 1-2 operations {put,get,delete} on colliding keys {a,b}, with the real background flush thread, explicit flush and compaction callers, memtable size 1 B (every write switches the table and rotates the log) or 32 MiB; all interleavings up to the deviation bound (2 quick / 3 thorough) with happens-before caching. Oracle: porcupine linearizability of the recorded call/return history (whole-store model, failed writes as no-ops, final reads included), every acknowledged put in the log exactly once and no failed put in the log. Non-trivial = executions with a cross-thread conflict on a shared object",
+		Rule: "stateless exploration of the real engine under the controlled scheduler: 11 scenarios of 2-3 client threads x 1-2 operations {put,get,delete} on colliding keys {a,b}, with the real background flush thread, explicit flush and compaction callers, memtable size 1 B (every write switches the table and rotates the log) or 32 MiB; all interleavings up to the deviation bound (2 quick / 3 thorough) with happens-before caching. Oracle: porcupine linearizability of the recorded call/return history (whole-store model, failed writes as no-ops, final reads included), every acknowledged put in the log exactly once and no failed put in the log. Non-trivial = executions with a cross-thread conflict on a shared object",
 		Assumptions: []string{"SC interleavings of visible operations (locks, atomics, channels, file-system namespace calls)", "data calls on open files are not scheduling points (files are thread-private or mutex-guarded)"},
 		Units: func(tier string) []string {
 			var us []string
@@ -211,7 +272,7 @@ func init() {
 					n = 8
 				}
 				bb := b
-				if d.Name == "flush-vs-put-get" {
+				if d.Name == "flush-vs-put-get" || d.Name == "rotate-vs-puts" {
 					bb = b - 1 // three threads around a flush: one deviation less to stay exhaustive within the budget
 					n = 16
 				}
